@@ -125,12 +125,13 @@ Proof. exact step_alias_refuted. Qed.
 (* the code has the structure the models mirror (recognised in the source on this run):
    thread-local choice object, get() installs the default, the context manager saves the
    field, sets inside try, restores the saved value in finally; jit_client_init copies;
-   donation only of the state argument of step (0) and final (1) *)
+   donation only of the state argument of step (0) and final (1) in the jit backend (the
+   pmapped functions only ever receive internal device_put copies of caller arrays) *)
 Theorem C02_model_anchored :
   backend_choice_thread_local = true /\ backend_get_installs_default = true /\
   ctx_saves_field = true /\ ctx_sets_in_try = true /\ ctx_restores_old_in_finally = true /\
   jit_init_copies = true /\ jit_init_donates = [] /\ jit_step_donates = [0] /\ jit_final_donates = [1] /\
-  pmap_init_donates = [] /\ pmap_step_donates = [0] /\ pmap_final_donates = [1] /\ blockify_sort_reverse = true.
+  blockify_sort_reverse = true.
 Proof. exact model_anchored. Qed.
 
 (* non-vacuity: 3 clients with 2, 0 and 3 batches on 2 devices; step divides by the
